@@ -860,20 +860,18 @@ class _NumericOperationsImpl(OperationsBlock):
     def all(self, x, *, axis=None, keepdims: bool = False):
         if isinstance(x.dtype, dtypes.NullableCore):
             x = ndx.where(x.null, True, x.values)
-        if functools.reduce(operator.mul, x._static_shape, 1) == 0:
-            return ndx.asarray(True, dtype=ndx.bool)
-        return ndx.min(x.astype(ndx.int8), axis=axis, keepdims=keepdims).astype(
-            ndx.bool
+        zeros = ndx.logical_not(x) if x.dtype == ndx.bool else ndx.equal(x, 0)
+        return ndx.equal(
+            ndx.sum(zeros.astype(ndx.int64), axis=axis, keepdims=keepdims), 0
         )
 
     @validate_core
     def any(self, x, *, axis=None, keepdims: bool = False):
         if isinstance(x.dtype, dtypes.NullableCore):
             x = ndx.where(x.null, False, x.values)
-        if functools.reduce(operator.mul, x._static_shape, 1) == 0:
-            return ndx.asarray(False, dtype=ndx.bool)
-        return ndx.max(x.astype(ndx.int8), axis=axis, keepdims=keepdims).astype(
-            ndx.bool
+        nonzeros = x if x.dtype == ndx.bool else ndx.not_equal(x, 0)
+        return ndx.not_equal(
+            ndx.sum(nonzeros.astype(ndx.int64), axis=axis, keepdims=keepdims), 0
         )
 
     @validate_core
